@@ -351,10 +351,13 @@ func (runInfo *runInfoStruct) invokeMemberExpr(expr *ast.MemberExpr) {
 		return
 	}
 
-	value := runInfo.rv.MethodByName(expr.Name)
-	if value.IsValid() {
-		runInfo.rv = value
-		return
+	// a nil value of an interface type has no methods to hand out (reflect panics on the attempt)
+	if runInfo.rv.Kind() != reflect.Interface || !runInfo.rv.IsNil() {
+		value := runInfo.rv.MethodByName(expr.Name)
+		if value.IsValid() {
+			runInfo.rv = value
+			return
+		}
 	}
 
 	if runInfo.rv.Kind() == reflect.Ptr {
